@@ -24,7 +24,7 @@ func (C13) Rule() string {
 		"POST elements (new positions, overwriting an existing position with other kind/tags/properties/relationships, partner elements updated in the same request or not), DELETE element, " +
 		"move (within a block, across blocks, onto another body, out of the volume, negative coordinates, block borders), POST blocks + reload (in-memory and low-memory) + labelsz reload, " +
 		"label ingests, mutating voxel writes, merges, cleaves, supervoxel splits, body splits, renumbers, commits, new versions, branches and clean restarts; every request runs to completion under the seeded scheduler, " +
-		"which interleaves the sync goroutines (labelmap -> annotation -> labelsz); in the 'nosettle' family the next request is issued while sync events are still queued. " +
+		"which interleaves the sync goroutines (labelmap -> annotation -> labelsz); a 'concurrent-label-ops' family issues 2-3 commuting cleaves/merges of one annotated body together; in the 'nosettle' family the next request is issued while sync events are still queued. " +
 		"Oracle, after the system has settled, on the touched version (and every version at the end): all-elements, blocks/<size>/<offset>, elements/<size>/<offset> (random boxes), roi/<name>, tag/<t> (with and without relationships), " +
 		"label/<l> for every body ever seen (with and without relationships) and labelsz count, counts, top, threshold for every index type must equal the projections of the model's element set, " +
 		"where the body of an element is what GET seg/labels returns for its position; elements are compared as sets with position, kind, tags, properties and relationships; " +
@@ -68,6 +68,28 @@ func (C13) Generate(r *rand.Rand, tier string, idx int) *drv.Scenario {
 	}
 	if r.IntN(3) > 0 { // most histories annotate an existing segmentation; the others ingest under existing elements
 		steps = append(steps, drv.Op{Op: "ingest", V: 0, N: seed()})
+	}
+	if r.IntN(5) == 0 {
+		// family: annotated bodies of several supervoxels, then batches of concurrent cleaves / merges of one body
+		family = "concurrent-label-ops"
+		steps = steps[:2]
+		steps = append(steps, drv.Op{Op: "ingest", V: 0, N: seed()}, drv.Op{Op: "ingest", V: 0, N: seed()}, drv.Op{Op: "ingest", V: 0, N: seed()})
+		for i := 0; i < 3; i++ {
+			steps = append(steps, drv.Op{Op: "lmerge", V: 0, N: seed()})
+		}
+		for i := 0; i < 4; i++ {
+			steps = append(steps, drv.Op{Op: "elpost", V: 0, N: seed()})
+		}
+		for i := 0; i < 4+r.IntN(4); i++ {
+			steps = append(steps, drv.Op{Op: "parlabel", V: 0, N: seed()})
+			if r.IntN(2) == 0 {
+				steps = append(steps, drv.Op{Op: pick(r, []string{"elpost", "elmove", "lmerge"}), V: 0, N: seed()})
+			}
+		}
+		steps = append(steps, drv.Op{Op: "acheckall"})
+		k := baseKnobs(r)
+		k.AllowSplit = true
+		return &drv.Scenario{Family: family, Knobs: k, Steps: steps, Fixed: 2}
 	}
 	n := 8 + r.IntN(16)
 	for i := 0; i < n; i++ {
@@ -123,8 +145,10 @@ func (C13) Generate(r *rand.Rand, tier string, idx int) *drv.Scenario {
 			steps = append(steps, drv.Op{Op: "cleave", V: v, N: seed()})
 		case y < 88:
 			steps = append(steps, drv.Op{Op: "splitsv", V: v, N: seed()})
-		case y < 92:
+		case y < 90:
 			steps = append(steps, drv.Op{Op: "bodysplit", V: v, N: seed()})
+		case y < 92:
+			steps = append(steps, drv.Op{Op: "parlabel", V: v, N: seed()})
 		case y < 94:
 			steps = append(steps, drv.Op{Op: "renumber", V: v, N: seed()})
 		case y < 97:
@@ -434,6 +458,8 @@ func (a *AnnExec) Apply(op drv.Op) (*drv.Violation, error) {
 			a.LastOp = "supervoxel split"
 		case "renumber":
 			a.LastOp = "renumber"
+		case "parlabel":
+			a.LastOp = "concurrent cleaves/merges"
 		}
 		if x.M != nil && x.D.Has(op.V) {
 			a.noteBodies(op.V)
@@ -444,7 +470,7 @@ func (a *AnnExec) Apply(op drv.Op) (*drv.Violation, error) {
 		}
 		if x.NoSettle {
 			switch op.Op {
-			case "ingest", "mutate", "lmerge", "cleave", "splitsv", "renumber":
+			case "ingest", "mutate", "lmerge", "cleave", "splitsv", "renumber", "parlabel":
 				a.LabelOpUnsettled = true
 			}
 		}
@@ -1323,7 +1349,7 @@ func (C13) Execute(sc *drv.Scenario, w *drv.World) (*drv.Violation, error) {
 			return v, nil
 		}
 		switch op.Op {
-		case "elpost", "eldel", "elmove", "elblocks", "ingest", "mutate", "lmerge", "cleave", "splitsv", "bodysplit", "renumber":
+		case "elpost", "eldel", "elmove", "elblocks", "ingest", "mutate", "lmerge", "cleave", "splitsv", "bodysplit", "renumber", "parlabel":
 		default:
 			continue
 		}
@@ -1358,6 +1384,6 @@ func (C13) Execute(sc *drv.Scenario, w *drv.World) (*drv.Violation, error) {
 
 func (C13) NonTrivial(sc *drv.Scenario, st *drv.RunStats) bool {
 	edits := st.Probes["element-post"] + st.Probes["element-delete"] + st.Probes["element-move"] + st.Probes["blocks-ingest-reload"]
-	lops := st.Probes["label-merge"] + st.Probes["label-cleave"] + st.Probes["label-splitsv"] + st.Probes["label-mutate"] + st.Probes["label-ingest"] + st.Probes["body-split"] + st.Probes["label-renumber"]
+	lops := st.Probes["label-parlabel"] + st.Probes["label-merge"] + st.Probes["label-cleave"] + st.Probes["label-splitsv"] + st.Probes["label-mutate"] + st.Probes["label-ingest"] + st.Probes["body-split"] + st.Probes["label-renumber"]
 	return edits >= 3 && lops >= 1
 }
